@@ -158,7 +158,7 @@ func init() {
 		fr.m.unsupported("time.Parse of symbolic string")
 		return nil
 	})
-	reg("time.Sleep", func(fr *frame, args []Value) Value { fr.m.yield(); return nil })
+	reg("time.Sleep", func(fr *frame, args []Value) Value { fr.m.yieldSync(); return nil })
 	reg("(time.Duration).String", func(fr *frame, args []Value) Value {
 		d := args[0].(*term.Term)
 		if d.IsConst() {
